@@ -262,6 +262,25 @@ Theorem read_mesh_points_noisy : forall a noisy, pointcloud_ok a ->
 Proof. exact read_mesh_points_noisy_proof. Qed.
 Print Assumptions read_mesh_points_noisy.
 
+(* END TO END, triangle meshes.  The same for every abstract file WITH a face element: list properties with
+   lower-case names and uchar/int/uint counts, among them (anywhere) the index property vertex_index / vertex_indices
+   with int or uint items, no texcoord list, every face with three or four vertex numbers (< 2^31): the model of
+   ply.ReadMesh returns triangle topology, each triangle / the fan (0,1,2),(0,2,3) of each quad in face order, and the
+   vertex attributes as above — for ascii, little-endian and big-endian files.
+   _partial: files whose face element also has a texcoord list (per-corner UVs + unweld) are covered by
+   [quad_fan_texcoord_bin] / [quad_fan_texcoord_ascii] at the face-reader level and by the correspondence check. *)
+Theorem read_mesh_triangles_partial : forall a fps ip ct lt, trimesh_ok a fps ip ct lt ->
+  read_mesh (encode a) = describe a /\ exists m, describe a = Ok m.
+Proof. exact read_mesh_tris_proof. Qed.
+Print Assumptions read_mesh_triangles_partial.
+
+Theorem read_mesh_triangles_noisy_partial : forall a fps ip ct lt noisy, trimesh_ok a fps ip ct lt ->
+  with_noise (header_body (header_of a)) noisy ->
+  read_mesh {| pf_header := ["ply"%string] :: ["format"%string; fmt_name (a_fmt a); "1.0"%string] :: noisy;
+               pf_body := enc_body a |} = describe a.
+Proof. exact read_mesh_tris_noisy_proof. Qed.
+Print Assumptions read_mesh_triangles_noisy_partial.
+
 (* ---- non-vacuity: a big-endian file with a double before the position, colour bytes, a quad and a triangle ---- *)
 Example c08_example :
   let ps : vprops := [(Double, "time"); (Float, "x"); (UChar, "red"); (Float, "y"); (Float, "z"); (Int, "id")]%string in
